@@ -401,6 +401,46 @@ func (x *tmplExec) callFunc(name string, args []tval) tval {
 	case "len":
 		es, _ := x.elements(args[0])
 		return tval{v: int64(len(es)), t: types.Typ[types.Int]}
+	case "index":
+		cur := args[0]
+		for _, k := range args[1:] {
+			cur = x.indirect(cur)
+			if cur.t == nil {
+				x.fail("index of nil")
+			}
+			switch u := cur.t.Underlying().(type) {
+			case *types.Slice:
+				es := sliceElems(cur.v.(Slice))
+				i, ok := k.v.(int64)
+				if !ok || i < 0 || int(i) >= len(es) {
+					panic(tmplError{x.m.newError("template: index out of range")})
+				}
+				cur = tval{v: es[i], t: u.Elem()}
+			case *types.Map:
+				mr := cur.v.(MapRef)
+				idx := x.m.mapFind(mr, k.v)
+				if idx < 0 {
+					cur = tval{v: zero(u.Elem()), t: u.Elem()}
+				} else {
+					cur = tval{v: mr.M.Vals[idx], t: u.Elem()}
+				}
+			default:
+				x.fail("index of %s", cur.t)
+			}
+		}
+		return cur
+	case "print", "println":
+		var parts []*Term
+		for i, a := range args {
+			if i > 0 && name == "println" {
+				parts = append(parts, StrT(" "))
+			}
+			parts = append(parts, x.printValue(a))
+		}
+		if name == "println" {
+			parts = append(parts, StrT("\n"))
+		}
+		return tval{v: fromTerm(Concat(parts...)), t: types.Typ[types.String]}
 	}
 	idx := x.m.mapFind(x.funcs, name)
 	if idx < 0 {
